@@ -1,69 +1,97 @@
 """shape of the waiter/worker handshake in crates/scion-stack/src/path/manager{.rs,/pathset.rs}
--> Gen/SyncShape.v   (src, need, emit, missing, re are injected by tools/gen.py)
+-> Gen/SyncShape.v   (src, need, expect, emit, missing, re are injected by tools/gen.py)
 
 The C20 model (Sync/Model.v) is hand-written; what can be extracted mechanically is the ORDER of
-the operations its atomic steps rely on.  Each construct below is one regular expression over the
-source with the verif-hooks lines removed; if one disappears the check fails loudly instead of
-silently verifying a protocol the code no longer follows."""
+the operations its atomic steps rely on.  Source is matched with the verif-hooks lines and the
+comments removed.
 
-def _strip_hooks(t):
-    return re.sub(r'^[ \t]*#\[cfg\(feature = "verif-hooks"\)\]\n[^\n]*\n', '', t, flags=re.M)
+HARD (need): only what the correspondence harness can NOT observe reliably -- the two atomicity
+assumptions whose violation is a race with a window of a few instructions:
+  * the Notified future is created while the sync mutex is held (same guard as the flag test);
+  * the pair's worker is created through the entry API (get-or-insert under the bucket lock).
+SOFT (expect): every other mirrored statement.  The harness observes its behaviour: flags and
+notification through trace inclusion, hangs (c_hung), handle views after the end (directed
+families failed_lookup_and_retry, exit_before_first_lookup, arrive-during-idle-exit, ...)."""
+
+def _strip(t):
+    t = re.sub(r'^[ \t]*#\[cfg\(feature = "verif-hooks"\)\]\n[^\n]*\n', '', t, flags=re.M)
+    return re.sub(r'//[^\n]*', '', t)
+
+def _body(text, header_rx):
+    """text of the function whose header matches header_rx (brace matching), or ''"""
+    m = re.search(header_rx, text)
+    if not m:
+        return ""
+    i = text.find("{", m.end() - 1)
+    depth, k = 0, i
+    while k < len(text):
+        if text[k] == "{": depth += 1
+        elif text[k] == "}":
+            depth -= 1
+            if depth == 0:
+                return text[i:k + 1]
+        k += 1
+    return ""
 
 def generate():
     rel = "crates/scion-stack/src/path/manager/pathset.rs"
-    t = _strip_hooks(src(rel))
+    t = _strip(src(rel))
     S = re.S
-    facts = []
-    def want(text, rx, what, r):
-        m = need(text, rx, what, r, S)
-        facts.append((what, m is not None))
-    want(t, r"pub async fn await_ongoing_update\(&self\) \{\s*let finish_notification = \{\s*"
-            r"let notify_guard = self\.shared\.sync\.lock\(\)\.unwrap\(\);\s*(?://[^\n]*\n\s*)*"
-            r"if notify_guard\.ongoing_start\.is_none\(\) && notify_guard\.initialized \{\s*return;\s*\}\s*"
-            r"notify_guard\.completed_notify\.clone\(\)\.notified_owned\(\)\s*\};\s*"
-            r"finish_notification\.await;",
-         "await_ongoing_update: flags tested and Notified created inside one locked block, awaited outside", rel)
-    want(t, r"let mut notify_guard = self\.shared\.sync\.lock\(\)\.unwrap\(\);\s*"
-            r"if notify_guard\.ongoing_start\.is_some\(\) \{.*?return;\s*\}\s*"
-            r"notify_guard\.ongoing_start = Some\(now\);\s*\}",
-         "fetch_and_update: first locked block sets ongoing_start", rel)
-    want(t, r"let mut notify_guard = self\.shared\.sync\.lock\(\)\.unwrap\(\);\s*"
-            r"notify_guard\.ongoing_start = None;\s*notify_guard\.initialized = true;\s*"
-            r"notify_guard\.completed_notify\.notify_waiters\(\);\s*\}",
-         "fetch_and_update: last locked block clears ongoing_start, sets initialized, notify_waiters", rel)
-    want(t, r"let exit_reason = maintain\.await;\s*(?://[^\n]*\n\s*)*"
-            r"if let Some\(mgr\) = self\.manager\.upgrade\(\) \{\s*mgr\.stop_managing_paths\(self\.src, self\.dst\);\s*\}\s*"
-            r"(?://[^\n]*\n\s*)*let mut sync_guard = self\.shared\.sync\.lock\(\)\.unwrap\(\);\s*"
-            r"sync_guard\.ongoing_start = None;\s*sync_guard\.initialized = true;\s*"
-            r"sync_guard\.completed_notify\.notify_waiters\(\);\s*(?://[^\n]*\n\s*)*"
-            r"sync_guard\.current_error = Some\(.*?\)\)\);\s*(?://[^\n]*\n\s*)*"
-            r"self\.shared\.active_path\.store\(None\);",
-         "manage(): exit = remove entry, locked block (clear, initialized, notify_waiters, error), clear slot", rel)
-    want(t, r"select! \{\s*biased;\s*(?://[^\n]*\n\s*)*\(\) = cancel_token\.cancelled\(\) => \{\s*return \"cancelled\";",
-         "manage(): biased select with cancellation first", rel)
-    want(t, r"impl Drop for PathSetTask \{\s*fn drop\(&mut self\) \{\s*self\.cancel_token\.cancel\(\);",
-         "PathSetTask::drop cancels the token", rel)
-    want(t, r"pub async fn active_path\(.*?\{\s*let active_guard = self\.shared\.active_path\.load\(\);\s*"
-            r"if active_guard\.is_some\(\) \{\s*return active_guard;\s*\}\s*\}\s*"
-            r"self\.await_ongoing_update\(\)\.await;\s*self\.shared\.active_path\.load\(\)\s*\}",
-         "active_path(): load, await_ongoing_update, load", rel)
+    facts, softs = [], []
+    def hard(text, rx, what, r):
+        facts.append((what, need(text, rx, what, r, S) is not None))
+    def soft(text, rx, what, r):
+        softs.append((what, expect(text, rx, what, r, S) is not None))
+
+    # ---- HARD: atomicity the harness cannot observe
+    wait_fn = _body(t, r"async fn await_ongoing_update\s*\(")
+    # a guard of the sync mutex is bound, the flags are tested and the Notified future is created
+    # before the block that owns the guard ends; the await comes after that block
+    hard(wait_fn,
+         r"\{\s*let (?:mut )?(\w+) = self\.shared\.sync\.lock\(\)[^;]*;"      # guard
+         r"(?:(?!\n\s*\};).)*?\1\.ongoing_start(?:(?!\n\s*\};).)*?\1\.initialized"   # flags via the guard
+         r"(?:(?!\n\s*\};).)*?\1\.completed_notify[^;]*?\.notified(?:_owned)?\(\)"   # future via the guard
+         r"\s*\}\s*;.*?\.await",
+         "await_ongoing_update: flags tested and Notified created under one guard of the sync mutex, awaited outside", rel)
     rel2 = "crates/scion-stack/src/path/manager.rs"
-    u = _strip_hooks(src(rel2))
-    want(u, r"let entry = match self\.0\.managed_paths\.entry_sync\(\(src, dst\)\) \{\s*"
-            r"scc::hash_index::Entry::Occupied\(occupied\) => \{.*?occupied\s*\}\s*"
-            r"scc::hash_index::Entry::Vacant\(vacant\) => \{.*?vacant\.insert_entry\(managed\.manage\(\)\)\s*\}\s*\};\s*"
-            r"entry\.get\(\)\.0\.clone\(\)",
-         "ensure_managed_paths: entry_sync, spawn only in the vacant arm", rel2)
-    want(u, r"pub fn stop_managing_paths\(&self, src: IsdAsn, dst: IsdAsn\) \{\s*"
-            r"if self\.0\.managed_paths\.remove_sync\(&\(src, dst\)\) \{",
+    u = _strip(src(rel2))
+    ens = _body(u, r"fn ensure_managed_paths\s*\(")
+    hard(ens, r"managed_paths\s*\.entry_sync\(\(src, dst\)\).*?Vacant\((\w+)\).*?\1\.insert_entry\(",
+         "ensure_managed_paths: get-or-insert through entry_sync, insertion in the vacant arm", rel2)
+
+    # ---- SOFT: mirrored statements whose behaviour the harness observes
+    fau = _body(t, r"async fn fetch_and_update\s*\(")
+    soft(fau, r"\.sync\.lock\(\).*?\.ongoing_start = Some\(now\)",
+         "fetch_and_update: first locked block sets ongoing_start", rel)
+    soft(fau, r"\.ongoing_start = None;.*?\.completed_notify\.notify_waiters\(\)",
+         "fetch_and_update: last locked block clears ongoing_start and calls notify_waiters", rel)
+    soft(fau, r"\.initialized = true", "fetch_and_update: last locked block sets initialized", rel)
+    soft(fau, r"current_error = None.*?current_error = Some\(", "fetch_and_update: current_error cleared on success, set on failure", rel)
+    mg = _body(t, r"pub fn manage\s*\(")
+    soft(mg, r"maintain\.await;.*?stop_managing_paths\(self\.src, self\.dst\).*?\.sync\.lock\(\).*?"
+             r"\.completed_notify\.notify_waiters\(\).*?\.current_error = Some\(.*?active_path\.store\(None\)",
+         "manage(): exit = remove entry, locked block (notify_waiters, error), clear slot", rel)
+    soft(mg, r"maintain\.await;.*?\.ongoing_start = None;", "manage(): exit block clears ongoing_start", rel)
+    soft(mg, r"maintain\.await;.*?\.initialized = true;", "manage(): exit block sets initialized", rel)
+    soft(mg, r"cancel_token\.cancelled\(\) =>\s*\{\s*return \"cancelled\"", "manage(): cancellation branch", rel)
+    soft(t, r"impl Drop for PathSetTask \{\s*fn drop\(&mut self\) \{\s*self\.cancel_token\.cancel\(\);",
+         "PathSetTask::drop cancels the token", rel)
+    ap = _body(t, r"pub async fn active_path\s*\(")
+    soft(ap, r"active_path\.load\(\).*?await_ongoing_update\(\)\.await.*?active_path\.load\(\)",
+         "active_path(): load, await_ongoing_update, load", rel)
+    soft(ens, r"Vacant\(\w+\).*?\.manage\(\)", "ensure_managed_paths: worker spawned in the vacant arm", rel2)
+    soft(u, r"fn stop_managing_paths\(&self, src: IsdAsn, dst: IsdAsn\) \{\s*if self\.0\.managed_paths\.remove_sync\(&\(src, dst\)\)",
          "stop_managing_paths: remove_sync", rel2)
-    want(u, r"let active = path_set\.active_path\(\)\.await\.as_ref\(\)\.map\(\|p\| p\.0\.clone\(\)\);.*?"
-            r"None => \{.*?let last_error = path_set\.current_error\(\);\s*match last_error \{\s*"
-            r"Some\(e\) => Err\(e\),\s*None => \{.*?Err\(Arc::new\(PathFetchError::NoPathsFound\)\)",
+    pf = _body(u, r"pub async fn path\s*\(")
+    soft(pf, r"\.active_path\(\)\.await.*?\.current_error\(\).*?NoPathsFound",
          "path(): no path after the wait -> current_error or NoPathsFound", rel2)
+
     body = "From Coq Require Import List Bool String.\nImport ListNotations.\nOpen Scope string_scope.\n"
-    body += "(* construct found in the source (verif-hooks lines removed) *)\n"
+    body += "(* construct found in the source (verif-hooks lines and comments removed); a missing HARD\n   construct fails the check in the translator, a missing SOFT one is decided by the harness *)\n"
     body += "Definition shape_facts : list (string * bool) := [\n"
     body += ";\n".join('  ("%s", %s)' % (w.replace('"', "'"), "true" if ok else "false") for w, ok in facts)
     body += "].\nDefinition shape_ok : bool := forallb snd shape_facts.\n"
+    body += "(* SOFT constructs (informative; the correspondence decides) *)\nDefinition shape_soft : list (string * bool) := [\n"
+    body += ";\n".join('  ("%s", %s)' % (w.replace('"', "'"), "true" if ok else "false") for w, ok in softs)
+    body += "].\n"
     emit("SyncShape.v", body)
